@@ -12,5 +12,5 @@ GNext == /\ ~Done
             \/ \E k \in Calls : Release(k) /\ script' = Append(script, [op |-> "release", k |-> k, after |-> Snap])
             \/ Tick /\ script' = Append(script, [op |-> "tick", k |-> 0, after |-> Snap])
 GSpec == GInit /\ [][GNext]_<<vars, script>>
-Export == Done => PrintT(<<"SCRIPT", ToJson([limit |-> Limit, calls |-> [k \in Calls |-> [k |-> k, c |-> conn[k], tmo |-> tmo[k]]], steps |-> script])>>)
+Export == Done => PrintT(<<"SCRIPT", ToJson([limit |-> Limit, srv |-> srvTmo, calls |-> [k \in Calls |-> [k |-> k, c |-> conn[k], tmo |-> tmo[k]]], steps |-> script])>>)
 =============================================================================
